@@ -354,6 +354,16 @@ class QGen:
             self.f("member_bool")
             return R.choice(cands)
         opts: List[Tuple[float, Any]] = [(4, cmp), (1.5, member)]
+        if self.o["first"]:
+            def first_cmp():
+                # a partial operation as an operand of the comparison itself (conditional tests, Where predicates)
+                try:
+                    sq = self.seq(env, max(d - 1, 0), T_num("float"), True)
+                except CannotGenerate:
+                    return cmp()
+                self.f("First_in_test")
+                return f"({self.call(sq, 'First')} {R.choice(['<', '>', '<=', '>='])} {self.lit('float')})"
+            opts.append((0.5 + self.o["partial_bias"] * 0.5, first_cmp))
         if d > 0:
             def bop():
                 op = R.choice(["and", "or"])
